@@ -86,6 +86,7 @@ func lengthFields(c cfg.Config) []int {
 
 func runC09(c *Ctx) {
 	cfgWatchdog()
+	runXlate2C09(c) // session 3, translator part 2: regenerated definition of Config.next vs the real function
 	one := func(raw cfg.Config, withModel bool, grp string) cfgAll {
 		a := cfgRunAll(raw)
 		if withModel {
